@@ -37,16 +37,17 @@ Proof. intro H. unfold tupd. rewrite fpath_eqb_neq by exact H. reflexivity. Qed.
 (* ---- frame and locality of single operations *)
 Lemma tapply_frame o s q : ~ In q (touches o) -> tapply o s q = s q.
 Proof.
-  destruct o as [p t|p t|a b]; cbn [touches tapply In]; intro H.
+  destruct o as [p t|p t|a b|p]; cbn [touches tapply In]; intro H.
   - apply tupd_other. intro E. apply H. left. congruence.
   - destruct (s p); [|reflexivity]. apply tupd_other. intro E. apply H. left. congruence.
   - destruct (s a); [|reflexivity]. rewrite tupd_other by (intro E; apply H; left; congruence).
     apply tupd_other. intro E. apply H. right. left. congruence.
+  - apply tupd_other. intro E. apply H. left. congruence.
 Qed.
 
 Lemma tapply_local o s s' : (forall q, In q (touches o) -> s q = s' q) -> forall q, In q (touches o) -> tapply o s q = tapply o s' q.
 Proof.
-  destruct o as [p t|p t|a b]; cbn [touches tapply In]; intros H q Hq.
+  destruct o as [p t|p t|a b|p]; cbn [touches tapply In]; intros H q Hq; [| | |destruct Hq as [<-|[]]; rewrite !tupd_same; reflexivity].
   - destruct Hq as [<-|[]]. rewrite !tupd_same. reflexivity.
   - destruct Hq as [<-|[]]. rewrite <- (H p (or_introl eq_refl)). destruct (s p) eqn:E.
     + rewrite !tupd_same. reflexivity.
@@ -212,6 +213,7 @@ Section Tasks.
     unfold foot, prog. destruct (tk_kind t); cbn; intro H.
     - destruct H as [H|[H|[H|[H|[]]]]]; subst; auto.
     - destruct H as [H|[H|[]]]; subst; auto.
+    - destruct H as [H|[]]; subst; auto.
   Qed.
 
   Lemma dest_in_foot t : In (tk_dest t) (foot (prog tn t)).
@@ -242,30 +244,38 @@ Section Tasks.
     - apply Hij. apply nodup_nth_dest; try assumption. apply Htt; assumption.
   Qed.
 
-  Lemma run_prog_dest t s : tn (tk_dest t) <> tk_dest t \/ tk_kind t = KDirect ->
+  Lemma run_prog_dest t s : tk_kind t <> KDelete -> tn (tk_dest t) <> tk_dest t \/ tk_kind t = KDirect ->
     run_ops (prog tn t) s (tk_dest t) = Some (TNew (tk_id t)).
   Proof.
-    intro H. unfold prog, run_ops. destruct (tk_kind t); cbn [fold_left tapply].
+    intros Hk H. unfold prog, run_ops. destruct (tk_kind t); cbn [fold_left tapply].
     - destruct H as [H|H]; [|discriminate]. rewrite tupd_same, tupd_same.
       rewrite tupd_other by (intro E; apply H; congruence). apply tupd_same.
     - rewrite tupd_same. apply tupd_same.
+    - contradiction.
   Qed.
+
+  Lemma run_prog_delete t s : tk_kind t = KDelete -> run_ops (prog tn t) s (tk_dest t) = None.
+  Proof. intro H. unfold prog, run_ops. rewrite H. cbn [fold_left tapply]. apply tupd_same. Qed.
 
   Lemma run_prog_temp t s : tk_kind t = KDelta -> run_ops (prog tn t) s (tn (tk_dest t)) = None.
   Proof. intro H. unfold prog, run_ops. rewrite H. cbn [fold_left tapply]. rewrite tupd_same, tupd_same. apply tupd_same. Qed.
 
-  (* the final state of EVERY interleaving: each destination holds exactly its source's data, no working file
-     exists, and every other path -- a user's own files included -- is as it was *)
+  (* the final state of EVERY interleaving: each transferred destination holds exactly its source's data, each deleted
+     entry is gone, no working file exists, and every other path -- a user's own files included -- is as it was *)
   Theorem final_state l s : good_naming -> is_interleaving l ps ->
-    (forall t, In t tasks -> texec l s (tk_dest t) = Some (TNew (tk_id t))) /\
+    (forall t, In t tasks -> tk_kind t <> KDelete -> texec l s (tk_dest t) = Some (TNew (tk_id t))) /\
+    (forall t, In t tasks -> tk_kind t = KDelete -> texec l s (tk_dest t) = None) /\
     (forall t, In t tasks -> tk_kind t = KDelta -> texec l s (tn (tk_dest t)) = None) /\
     (forall q, (forall t, In t tasks -> q <> tk_dest t /\ (tk_kind t = KDelta -> q <> tn (tk_dest t))) -> texec l s q = s q).
   Proof.
-    intros Hg Hl. pose proof (good_disjoint Hg) as Hd. destruct Hg as (Hnd & Hdt & Htt). repeat split.
-    - intros t Ht. destruct (In_nth _ _ dflt Ht) as (i & Li & Ei).
+    intros Hg Hl. pose proof (good_disjoint Hg) as Hd. destruct Hg as (Hnd & Hdt & Htt). split; [|split; [|split]].
+    - intros t Ht Hk. destruct (In_nth _ _ dflt Ht) as (i & Li & Ei).
       rewrite (interleaving_owned ps l s i _ Hd Hl) by (rewrite nth_ps, Ei by exact Li; apply dest_in_foot).
-      rewrite nth_ps, Ei by exact Li. apply run_prog_dest. destruct (tk_kind t) eqn:K; [left | right; reflexivity].
+      rewrite nth_ps, Ei by exact Li. apply run_prog_dest; [exact Hk|]. destruct (tk_kind t) eqn:K; [left | right; reflexivity | contradiction].
       apply (Hdt t t Ht Ht K).
+    - intros t Ht K. destruct (In_nth _ _ dflt Ht) as (i & Li & Ei).
+      rewrite (interleaving_owned ps l s i _ Hd Hl) by (rewrite nth_ps, Ei by exact Li; apply dest_in_foot).
+      rewrite nth_ps, Ei by exact Li. apply run_prog_delete. exact K.
     - intros t Ht K. destruct (In_nth _ _ dflt Ht) as (i & Li & Ei).
       rewrite (interleaving_owned ps l s i _ Hd Hl) by (rewrite nth_ps, Ei by exact Li; apply temp_in_foot; exact K).
       rewrite nth_ps, Ei by exact Li. apply run_prog_temp. exact K.
